@@ -7,7 +7,7 @@ COMMON_TB = [
 ]
 
 NOT_CLAIMED = {}
-FACT_PROPS = []
+FACT_PROPS = ["C07", "C11", "C12", "C13", "C15", "C16", "C20"]
 
 PROPS = {
     "C17": dict(
@@ -232,5 +232,26 @@ PROPS = {
                     "(Lean). Tied by exact virtual-time scripts on the real probeNode / handleIndirectPing / awareness code."),
         level_note="Partial: goroutine scheduling order at equal instants and real network timing are not modelled; observed only in virtual time.",
         engine="synctest-harness",
+    ),
+    "C15": dict(
+        lean_modules=["Swim.Model.Codec", "Swim.Props.C11", "Swim.Props.C16", "Swim.Props.C12", "Swim.Props.C15"],
+        tests="^TestC15$",
+        shards_quick=4,
+        rule=("wire tap on a real node that enforces outgoing encryption, over every sending path in one battery per case: best-effort and addressed "
+              "user messages, reliable user message, gossip with membership (names, metadata) and user broadcasts, ping with piggyback, ack to an inbound "
+              "ping, indirect-ping relay and nack, push/pull as initiator and as host, TCP fallback ping ack, error replies on undecodable and on "
+              "plaintext streams; configurations: label none/short/40 bytes, SkipInboundLabelCheck, protocol 1/2/5 (encryption version 0/1), compression, "
+              "peer protocol 2/5, key installed after creation, rotation in progress (second key installed, possibly primary); every buffer must be "
+              "label header + ciphertext that opens under the current primary key with the label (stream: type|length|label) as associated data, and "
+              "must not contain any planted plaintext marker; non-trivial = at least 8 buffers captured"),
+        trusted_base=COMMON_TB + ["tools/extract's syntactic list of Write/WriteTo/WriteToAddress call sites (a send through another method name or through reflection "
+                                  "would escape it)", "AES-GCM decryption as the test that a buffer is a ciphertext under the primary key"],
+        assumptions=["the keyring is not empty and GossipVerifyOutgoing is on at the time of sending"],
+        level_text=("Proof over extracted program facts + model: the complete list of transport / connection write sites is pinned by a regenerated fact "
+                    "theorem (only rawSendMsgPacket, rawSendMsgStream and the label-header writer reach the wire); sendPacket's output is label header + "
+                    "version + nonce + AEAD sealing under the primary key with the label as AAD (Lean). Tied by a wire tap over all sending paths."),
+        level_note=("The order encrypt-then-write inside the two functions is established by the correspondence, not by a data-flow proof of the Go text; "
+                    "stream framing on the sending side is exercised, not modelled."),
+        engine="codec-harness+fact-extractor",
     ),
 }
